@@ -18,6 +18,12 @@ type AlphabeticalOrderKey[K chars] struct{}
 
 func (aok AlphabeticalOrderKey[K]) Transform(k K) ([]byte, []byte) {
 	b := []byte(k)
+	if _, ok := any(k).([]byte); ok {
+		// converting a byte slice does not copy it: the trees append a
+		// terminator to the result and keep it in their leaves, so it must
+		// not share memory with the caller's key
+		b = append(make([]byte, 0, len(b)+1), b...)
+	}
 	return b, b
 }
 func (aok AlphabeticalOrderKey[K]) Restore(b []byte) K { return K(b) }
